@@ -174,7 +174,14 @@ func exec(op string) string {
 		// integer of hundreds of megabytes (and print it): not evaluated; the driver answers
 		// `unmodelled` by the same rule.
 		if f, _, e := big.ParseFloat(string(b), 10, 512, big.AwayFromZero); e == nil && !f.IsInf() && f.Sign() != 0 && f.MantExp(nil) > hugeExp {
-			return "skipped-huge"
+			// ... unless the multiplication by 10^d is certain to overflow to +-Inf (result 0, cheap)
+			dd := d
+			if dd < 0 {
+				dd = 0
+			}
+			if int64(f.MantExp(nil))+int64(pow10(int(dd)).BitLen())-1 <= big.MaxExp {
+				return "skipped-huge"
+			}
 		}
 		v, e := utility.VerifC18StrToBigInt(string(b), d)
 		res := showInt(v, e)
